@@ -282,10 +282,10 @@ def module_small(name, arc, nobj=2, comment=True):
 class MibFile(object):
     """A file assembled from tagged lines; offers the ground truth."""
 
-    def __init__(self, modules, eol='\n', between=None, trailer=None, name=''):
+    def __init__(self, modules, eol='\n', between=None, trailer=None, name='', header=None):
         self.name = name
         self.eol = eol
-        lines = []
+        lines = list(header or [])      # blank / comment lines before the first module
         self.mod_lines = []     # (first line idx, last line idx) 0-based, per module (head .. end)
         for i, m in enumerate(modules):
             if i and between:
@@ -349,7 +349,8 @@ class MibFile(object):
 def corpus(tier='quick'):
     files = [
         MibFile([module_small('AAA-MIB', 11, 1)], name='small1'),
-        MibFile([module_small('AAA-MIB', 11, 2), module_small('BBB-MIB', 12, 1)], between=[L('blank', ''), L('comment', '-- between modules')], name='two-modules'),
+        MibFile([module_small('AAA-MIB', 11, 2), module_small('BBB-MIB', 12, 1)], between=[L('blank', ''), L('comment', '-- between modules')], name='two-modules',
+                header=[L('blank', ''), L('blank', '  '), L('comment', '-- covers 100% of the agent (draft %d)'), L('blank', '')]),
         MibFile([module_full('FULL-MIB', 4242)], name='full'),
         MibFile([module_v1('OLD-MIB', 4343)], name='smiv1'),
         MibFile([module_small('CCC-MIB', 13, 1)], eol='\r\n', trailer=[L('comment', '-- trailing comment after the last module'), L('blank', '')], name='crlf-trailer'),
